@@ -71,7 +71,11 @@ Inductive pcase :=
 | PWsStress (survived : bool)
 (* one modelled function of api.go: does its lock skeleton (order of filtersMu.Lock / Unlock, api.filters accesses,
    EventSystem calls, timer operations, read off the source) equal the one Model/FilterApi.v splits the call at *)
-| PSkel (matches : bool).
+| PSkel (matches : bool)
+(* log filters: filters.FilterLogs on the product criteria shape x log shape returned without a panic; the real
+   eth_newFilter / websocket logs consumers survived the delivery of every log shape (child process). The consumers are
+   unrecovered goroutines (Total.within None): a panic there is a crash *)
+| PLogFilter (no_panic : bool).
 
 Definition ps_ok (c : pcase) : bool :=
   match c with
@@ -83,6 +87,7 @@ Definition ps_ok (c : pcase) : bool :=
   | PApiStress survived => survived
   | PWsStress survived => survived
   | PSkel matches => matches
+  | PLogFilter ok => ok
   end.
 
 Definition ps_mismatches (off : nat) (l : list pcase) : list nat := mism ps_ok off l.
